@@ -8,7 +8,11 @@ Model.C05.convert evaluated on the exact rationals of the implementation's own c
 real Aggregate.build calls run on the real Manager; current units at every observation point, the
 final units, nesting counter and flag are compared inside Coq with Model.C05.exec.
 Monitors: (C) a list of public builder/calculator calls made inside a units context must leave the
-caller's units unchanged, also when they raise.
+caller's units unchanged, also when they raise; (D) library calls on objects (axis conversions and their round trips, Fourier
+transforms of DFunctions, derived bath functions, vibrational molecules and aggregates, Hamiltonian operations) made without a
+context, inside each non-internal context on inputs created outside it, and on inputs created inside it: the stored state of the
+results (deep snapshot of the private storage) must be the same.
+Static tie: harness/translate_c05.py (GenC05.v, see its docstring).
 """
 import os
 import sys
@@ -352,6 +356,262 @@ def run_reuse(chk, tier):
     m._in_eu_count, m._in_energy_units_context = 0, False
 
 
+# ------------------------------------------------------------------ (D) calls on objects are transparent to the caller's units
+def snap(obj, depth=0, seen=None):
+    """the STORED state of a library object (private storage read from __dict__, no units management involved), recursively"""
+    import numpy
+    if seen is None:
+        seen = set()
+    if obj is None or isinstance(obj, (bool, str)):
+        return ("v", obj)
+    if isinstance(obj, (int, float, complex, numpy.integer, numpy.floating, numpy.complexfloating)):
+        return ("n", complex(obj))
+    if isinstance(obj, numpy.ndarray):
+        if obj.dtype.kind in "biufc":
+            return ("a", obj.shape, numpy.array(obj, dtype=complex).ravel())
+        return ("v", "array of " + obj.dtype.kind)
+    if isinstance(obj, (list, tuple)):
+        if depth > 5 or len(obj) > 64:
+            return ("v", "seq[%d]" % len(obj))
+        return ("l", [snap(x, depth + 1, seen) for x in obj])
+    if isinstance(obj, dict):
+        if depth > 5 or len(obj) > 64:
+            return ("v", "dict[%d]" % len(obj))
+        return ("d", {str(k): snap(v, depth + 1, seen) for k, v in obj.items()})
+    mod = type(obj).__module__ or ""
+    if mod.startswith("quantarhei") and hasattr(obj, "__dict__"):
+        if id(obj) in seen or depth > 4:
+            return ("v", "object " + type(obj).__name__)
+        seen.add(id(obj))
+        out = {}
+        for k, v in vars(obj).items():
+            if k in ("manager", "_parent", "monomer", "aggregate") or callable(v):
+                continue
+            out[k] = snap(v, depth + 1, seen)
+        return ("o", type(obj).__name__, out)
+    return ("v", "instance of " + type(obj).__name__)
+
+
+def snap_scale(a):
+    """largest magnitude among the numbers of a snapshot"""
+    import numpy
+    if a[0] == "n":
+        return abs(a[1]) if a[1] == a[1] else 0.0
+    if a[0] == "a":
+        fin = a[2][numpy.isfinite(a[2])]
+        return float(numpy.max(numpy.abs(fin), initial=0.0))
+    if a[0] == "l":
+        return max([snap_scale(x) for x in a[1]] + [0.0])
+    if a[0] in ("d", "o"):
+        return max([snap_scale(x) for x in (a[1] if a[0] == "d" else a[2]).values()] + [0.0])
+    return 0.0
+
+
+def snap_diff(a, b, path="result", atol=None):
+    """first difference between two snapshots, or None: relative 1e-9 of the larger magnitude, plus 1e-12 of the largest number
+    stored anywhere in the compared results (so that rounding noise around an exact zero is not judged relatively)"""
+    import numpy
+    if atol is None:
+        atol = 1e-12 * max(snap_scale(a), snap_scale(b)) + 1e-300
+    if a[0] != b[0]:
+        return "%s: %s vs %s" % (path, a[0], b[0])
+    if a[0] == "v":
+        return None if a[1] == b[1] else "%s: %r vs %r" % (path, a[1], b[1])
+    if a[0] == "n":
+        x, y = a[1], b[1]
+        if x != x and y != y:
+            return None
+        return None if abs(x - y) <= 1e-9 * max(abs(x), abs(y)) + atol else "%s: %r in the context vs %r without" % (path, x, y)
+    if a[0] == "a":
+        if a[1] != b[1]:
+            return "%s: shape %s vs %s" % (path, a[1], b[1])
+        if a[2].size == 0:
+            return None
+        fin = numpy.isfinite(a[2]) & numpy.isfinite(b[2])
+        if not numpy.array_equal(numpy.isfinite(a[2]), numpy.isfinite(b[2])):
+            return "%s: non-finite entries at different places" % path
+        scale = max(float(numpy.max(numpy.abs(a[2][fin]), initial=0.0)), float(numpy.max(numpy.abs(b[2][fin]), initial=0.0)))
+        dev = float(numpy.max(numpy.abs(a[2][fin] - b[2][fin]), initial=0.0))
+        if dev <= 1e-9 * scale + atol:
+            return None
+        k = int(numpy.argmax(numpy.abs(numpy.where(fin, a[2] - b[2], 0.0))))
+        return "%s[%d]: %r in the context vs %r without (largest entry %g)" % (path, k, a[2][k], b[2][k], scale)
+    if a[0] == "l":
+        if len(a[1]) != len(b[1]):
+            return "%s: length %d vs %d" % (path, len(a[1]), len(b[1]))
+        for i, (x, y) in enumerate(zip(a[1], b[1])):
+            d = snap_diff(x, y, "%s[%d]" % (path, i), atol)
+            if d:
+                return d
+        return None
+    da, db = (a[1], b[1]) if a[0] == "d" else (a[2], b[2])
+    if a[0] == "o" and a[1] != b[1]:
+        return "%s: %s vs %s" % (path, a[1], b[1])
+    if set(da) != set(db):
+        return "%s: fields %s vs %s" % (path, sorted(set(da) - set(db)), sorted(set(db) - set(da)))
+    for k in sorted(da):
+        d = snap_diff(da[k], db[k], path + "." + k, atol)
+        if d:
+            return d
+    return None
+
+
+def transparent_calls():
+    """name -> (make(cu), call(inputs, cu)): `make` builds the input objects from numbers given in internal units, handing every
+    energy to the library through cu(x) = the same quantity expressed in the units current at that moment; `call` is the
+    library call under test and returns the objects / arrays whose stored state is compared."""
+    import numpy
+    import quantarhei as qr
+    CM = 2.0 * numpy.pi * 2.99792458e-5          # 1/cm in internal units (any fixed number would do)
+    calls = {}
+
+    def faxis(atype, start, n=64, step=10.0):
+        return lambda cu: qr.FrequencyAxis(cu(start * CM), n, cu(step * CM), atype=atype)
+
+    def taxis(atype, fstart, n=64):
+        return lambda cu: qr.TimeAxis(0.0 if atype == "upper-half" else -32.0, n, 1.0, atype=atype, frequency_start=fstart * CM)
+    for atype in ("complete", "upper-half"):
+        for tag, start in (("centred", -320.0), ("window", 11000.0), ("negative window", -9000.0)):
+            if atype == "upper-half" and tag == "centred":
+                start = 0.0
+            nm = "%s %s" % (atype, tag)
+            calls["FrequencyAxis(%s).get_TimeAxis" % nm] = (faxis(atype, start), lambda fa, cu: fa.get_TimeAxis())
+            calls["FrequencyAxis(%s).get_TimeAxis.get_FrequencyAxis" % nm] = (faxis(atype, start), lambda fa, cu: fa.get_TimeAxis().get_FrequencyAxis())
+            calls["FrequencyAxis(%s).copy" % nm] = (faxis(atype, start), lambda fa, cu: fa.copy())
+            calls["DFunction(FrequencyAxis %s).get_inverse_Fourier_transform" % nm] = (
+                faxis(atype, start), lambda fa, cu: qr.DFunction(fa, numpy.exp(-((numpy.arange(fa.length) - 20.0) / 7.0) ** 2) * (1.0 + 0.5j)).get_inverse_Fourier_transform())
+            calls["DFunction(FrequencyAxis %s).get_Fourier_transform" % nm] = (
+                faxis(atype, start), lambda fa, cu: qr.DFunction(fa, numpy.exp(-((numpy.arange(fa.length) - 20.0) / 7.0) ** 2) * (1.0 + 0.5j)).get_Fourier_transform())
+        for tag, fs in (("no offset", 0.0), ("offset", 12000.0)):
+            nm = "%s %s" % (atype, tag)
+            calls["TimeAxis(%s).get_FrequencyAxis" % nm] = (taxis(atype, fs), lambda ta, cu: ta.get_FrequencyAxis())
+            calls["TimeAxis(%s).get_FrequencyAxis.get_TimeAxis" % nm] = (taxis(atype, fs), lambda ta, cu: ta.get_FrequencyAxis().get_TimeAxis())
+            calls["DFunction(TimeAxis %s).get_Fourier_transform" % nm] = (
+                taxis(atype, fs), lambda ta, cu: qr.DFunction(ta, numpy.exp(-((numpy.arange(ta.length) - 12.0) / 5.0) ** 2) * (1.0 - 0.25j)).get_Fourier_transform())
+            calls["DFunction(TimeAxis %s).get_Fourier_transform.get_inverse_Fourier_transform" % nm] = (
+                taxis(atype, fs), lambda ta, cu: qr.DFunction(ta, numpy.exp(-((numpy.arange(ta.length) - 12.0) / 5.0) ** 2) * (1.0 - 0.25j)).get_Fourier_transform().get_inverse_Fourier_transform())
+
+    # bath functions
+    def cfun(cls, reorg=30.0, ctime=100.0):
+        def make(cu):
+            ta = qr.TimeAxis(0.0, 200, 1.0)
+            return getattr(qr, cls)(ta, dict(ftype="OverdampedBrownian", reorg=cu(reorg * CM), cortime=ctime, T=300))
+        return make
+    for meth in ("get_SpectralDensity", "get_FTCorrelationFunction", "get_OddFTCorrelationFunction", "get_EvenFTCorrelationFunction", "copy"):
+        calls["CorrelationFunction.%s" % meth] = (cfun("CorrelationFunction"), lambda cf, cu, meth=meth: getattr(cf, meth)())
+    calls["CorrelationFunction + CorrelationFunction"] = (lambda cu: (cfun("CorrelationFunction")(cu), cfun("CorrelationFunction", 11.0, 60.0)(cu)),
+                                                          lambda ab, cu: ab[0] + ab[1])
+    calls["CorrelationFunction.measure_reorganization_energy"] = (cfun("CorrelationFunction"), lambda cf, cu: ("energy", cf.measure_reorganization_energy()))
+    calls["CorrelationFunction.get_reorganization_energy"] = (cfun("CorrelationFunction"), lambda cf, cu: ("energy", cf.get_reorganization_energy()))
+    calls["SpectralDensity.get_CorrelationFunction"] = (cfun("SpectralDensity"), lambda sd, cu: sd.get_CorrelationFunction(temperature=300))
+    calls["SpectralDensity.get_FTCorrelationFunction"] = (cfun("SpectralDensity"), lambda sd, cu: sd.get_FTCorrelationFunction(temperature=300))
+    calls["SpectralDensity.copy"] = (cfun("SpectralDensity"), lambda sd, cu: sd.copy())
+    calls["SpectralDensity + SpectralDensity"] = (lambda cu: (cfun("SpectralDensity")(cu), cfun("SpectralDensity", 11.0, 60.0)(cu)), lambda ab, cu: ab[0] + ab[1])
+    calls["SpectralDensity.measure_reorganization_energy"] = (cfun("SpectralDensity"), lambda sd, cu: ("energy", sd.measure_reorganization_energy()))
+
+    # molecules, modes, Hamiltonians, aggregates
+    def vib_molecule(cu):
+        mol = qr.Molecule([0.0, cu(12000.0 * CM)])
+        mod = qr.Mode(frequency=cu(300.0 * CM))
+        mol.add_Mode(mod)
+        mod.set_nmax(0, 3)
+        mod.set_nmax(1, 3)
+        mod.set_HR(1, 0.3)
+        return mol
+
+    def vib_aggregate(cu):
+        m1 = vib_molecule(cu)
+        m2 = qr.Molecule([0.0, cu(12300.0 * CM)])
+        ag = qr.Aggregate([m1, m2])
+        ag.set_resonance_coupling(0, 1, cu(80.0 * CM))
+        return ag
+    calls["Mode(frequency)"] = (lambda cu: None, lambda _, cu: qr.Mode(frequency=cu(300.0 * CM)))
+    calls["Molecule+Mode.get_Hamiltonian"] = (vib_molecule, lambda mol, cu: (mol.get_Hamiltonian(), mol))
+    calls["Molecule.set_energy"] = (lambda cu: qr.Molecule([0.0, cu(12000.0 * CM)]), lambda mol, cu: (mol.set_energy(1, cu(12500.0 * CM)), mol)[1])
+    calls["Aggregate(vibrational).build"] = (vib_aggregate, lambda ag, cu: (ag.build(mult=1), ag.get_Hamiltonian())[1])
+    calls["Aggregate(vibrational).build(vibenergy_cutoff)"] = (vib_aggregate, lambda ag, cu: (ag.build(mult=1, vibgen_approx="SPA", vibenergy_cutoff=cu(500.0 * CM)),
+                                                                                              ag.get_Hamiltonian())[1])
+    calls["Aggregate.build(mult=2)"] = (lambda cu: qr.Aggregate([qr.Molecule([0.0, cu(12000.0 * CM)]), qr.Molecule([0.0, cu(12200.0 * CM)])]),
+                                       lambda ag, cu: (ag.set_resonance_coupling(0, 1, cu(100.0 * CM)), ag.build(mult=2), ag.get_Hamiltonian())[2])
+
+    def ham(cu):
+        return qr.Hamiltonian(data=[[0.0, cu(100.0 * CM), 0.0], [cu(100.0 * CM), cu(12000.0 * CM), cu(10.0 * CM)], [0.0, cu(10.0 * CM), cu(12400.0 * CM)]])
+    calls["Hamiltonian.set_rwa"] = (ham, lambda H, cu: (H.set_rwa([0, 1]), H)[1])
+    calls["Hamiltonian.subtract_cutoff_coupling"] = (ham, lambda H, cu: (H.subtract_cutoff_coupling(cu(50.0 * CM)), H)[1])
+    calls["Hamiltonian.subtract+recover_cutoff_coupling"] = (ham, lambda H, cu: (H.subtract_cutoff_coupling(cu(50.0 * CM)), H.recover_cutoff_coupling(), H)[2])
+    calls["Hamiltonian.diagonalize"] = (ham, lambda H, cu: (H.diagonalize(), H)[1])
+    return calls
+
+
+def run_transparency(chk, tier):
+    """(D) every call of the registry is made three ways: without any context (reference), inside a non-internal units context on
+    inputs created OUTSIDE it, and inside the context on inputs created INSIDE it (numbers handed over in the context's units).
+    The stored state of the results (private storage, i.e. internal units) must be the same in all three."""
+    import numpy
+    import quantarhei as qr
+    m = qr.Manager()
+    calls = transparent_calls()
+    ctxs = ["1/cm", "eV", "nm"] if tier == "quick" else ["1/cm", "eV", "meV", "THz", "Ha", "J", "nm"]
+
+    def cu(x):            # the internal value x expressed in the units current NOW
+        return float(m.convert_energy_2_current_u(float(x))) if x != 0.0 else 0.0
+
+    def observe(res):
+        if isinstance(res, tuple) and len(res) == 2 and isinstance(res[0], str) and res[0] == "energy":
+            return ("n", complex(m.convert_energy_2_internal_u(res[1])))       # an energy returned as a number: back to internal units
+        return snap(res)
+
+    def run(name, ctx, inside):
+        make, call = calls[name]
+        with contextlib.redirect_stdout(io.StringIO()):
+            if ctx is None:      # reference: inputs created in internal units (some constructors insist on a units context), call without any
+                with qr.energy_units("int"):
+                    inp = make(cu)
+                return observe(call(inp, cu))
+            if inside:
+                with qr.energy_units(ctx):
+                    return observe(call(make(cu), cu))
+            with qr.energy_units("int"):
+                inp = make(cu)
+            with qr.energy_units(ctx):
+                return observe(call(inp, cu))
+    for name in sorted(calls):
+        try:
+            ref = run(name, None, False)
+            ref_exc = None
+        except Exception as e:
+            ref, ref_exc = None, type(e).__name__
+        for ctx in ctxs:
+            for inside in (False, True):
+                if inside and ctx == "nm":
+                    continue          # a linear grid given in wavelengths is another grid: creation inside is compared for linear units only
+                c = {"kind": "transparent", "call": name, "ctx": ctx, "inputs_created": "inside" if inside else "outside"}
+                before = (m.get_current_units("energy"), m._in_eu_count)
+                try:
+                    got, exc = run(name, ctx, inside), None
+                except Exception as e:
+                    got, exc = None, type(e).__name__
+                after = (m.get_current_units("energy"), m._in_eu_count)
+                chk.count("transparent:" + ("raises" if exc else "ok"))
+                chk.case(("transparent", name, ctx, inside), exc is None,
+                         sample=c if (name.startswith("FrequencyAxis(complete window).get_TimeAxis") and ctx == "1/cm") else None)
+                if after != before:
+                    chk.violation("transparent:units_left:" + name, "%s inside energy_units(%r) left the manager at %r (was %r)" % (name, ctx, after, before),
+                                  "monitor", c)
+                    qr.set_current_units()
+                    m._in_eu_count, m._in_energy_units_context = 0, False
+                if exc != ref_exc:
+                    chk.violation("transparent:exception:" + name, "%s: %s without a units context, %s inside energy_units(%r) (inputs created %s)"
+                                  % (name, ref_exc or "returns", exc or "returns", ctx, c["inputs_created"]), "monitor", c)
+                    continue
+                if exc is None:
+                    d = snap_diff(got, ref)
+                    if d:
+                        chk.violation("transparent:stored_state:" + name, "%s called inside energy_units(%r) (inputs created %s the context) stores a "
+                                      "different state than the same call without a context - %s" % (name, ctx, c["inputs_created"], d), "monitor", c)
+
+
+
 def library_calls():
     import numpy
     import quantarhei as qr
@@ -515,10 +775,17 @@ def main():
     chk = cm.Check(PID, args.tier)
     chk.rule = ("(A) registry of units-managed accessors x all 121 ordered pairs of energy units x values; (B) random programs of nested "
                 "energy/frequency/length contexts, exceptions, handlers, real Aggregate.build calls (succeeding and failing); (C) public "
-                "library calls inside contexts. Non-trivial: u != v; programs with >= 2 contexts; every library call")
+                "library calls inside contexts; (D) 69 calls on objects x contexts x inputs created outside / inside the context, stored state "
+                "compared with the call made without a context. Non-trivial: u != v; programs with >= 2 contexts; every library call; every "
+                "transparency case that returns")
     chk.assumptions = ["the conversion factors are read from quantarhei.core.units and handed to the model as exact rationals",
                        "re-entering one context OBJECT while it is active is outside the model (each `with` of the modelled programs creates a new object); objects kept and entered again LATER are covered by a monitor",
-                       "length-unit conversions of positions are not in the accessor registry (only context handling)"]
+                       "length-unit conversions of positions are not in the accessor registry (only context handling and the static tie of the converters)",
+                       "static tie (GenC05.v): conversion tables over symbolic positive constants, converters (scalar = except branch, arrays = try branch), "
+                       "get/set/unset_current_units with the type of units propagated as a constant, the three context classes through a `with` skeleton "
+                       "whose body does not re-enter the same object, delegations, units-managed properties (check_numpy_array taken as the identity on the "
+                       "numbers), convert / in_current_units, the units current at every managed access of the axis-conversion functions, the flow of "
+                       "energy arguments of five setters; frequency converters (unused, no context can switch current_units['frequency']) are not tied"]
     chk.prove()
     # static tie: the units machinery is translated from the current source and proved equal to Model/C05.v (GenC05.v)
     import fcntl
@@ -536,6 +803,7 @@ def main():
     run_programs(chk, args.tier)
     run_reuse(chk, args.tier)
     run_library_calls(chk, args.tier)
+    run_transparency(chk, args.tier)
     chk.finish()
 
 
